@@ -531,6 +531,64 @@ pub open spec fn i64_text_value(cs: Seq<char>) -> Option<int> {
         if i64::MIN <= v <= i64::MAX { Some(v) } else { None }
     } else { None }
 }
+// ---- decimal text of integers as `{}` prints it, PROVED to re-parse to the value (the shims that print integers state this text)
+/// the decimal digit character of d (< 10)
+pub open spec fn digit_char(d: nat) -> char { ((48u8 + (d % 10) as u8) as u8) as char }
+/// decimal text of a natural number: no leading zeros, "0" for zero
+pub open spec fn dec_text(n: nat) -> Seq<char> decreases n {
+    if n < 10 { seq![digit_char(n)] } else { dec_text(n / 10).push(digit_char(n % 10)) }
+}
+pub proof fn lemma_digit_char(d: nat)
+    requires d < 10
+    ensures is_digit(digit_char(d)), digit_char(d) as int - '0' as int == d, digit_char(d) != '\n', digit_char(d) != '\r', (digit_char(d) as u32) < 128
+{
+}
+pub proof fn lemma_dec_text(n: nat)
+    ensures dec_text(n).len() >= 1, all_digits(dec_text(n)), dec_value(dec_text(n)) == n,
+        !dec_text(n).contains('\n'), !dec_text(n).contains('\r'), !dec_text(n).contains('-'), !dec_text(n).contains('+'),
+        forall|i: int| 0 <= i < dec_text(n).len() ==> (#[trigger] dec_text(n)[i] as u32) < 128,
+    decreases n
+{
+    let t = dec_text(n);
+    if n < 10 {
+        lemma_digit_char(n);
+        assert(t.drop_last() =~= Seq::<char>::empty());
+        assert(dec_value(t) == dec_value(t.drop_last()) * 10 + (t.last() as int - '0' as int));
+        assert(dec_value(Seq::<char>::empty()) == 0);
+    } else {
+        lemma_dec_text(n / 10);
+        lemma_digit_char(n % 10);
+        let p = dec_text(n / 10);
+        assert(t.drop_last() =~= p);
+        assert(t.last() == digit_char(n % 10));
+        assert(dec_value(t) == dec_value(p) * 10 + (t.last() as int - '0' as int));
+        assert forall|i: int| 0 <= i < t.len() implies is_digit(#[trigger] t[i]) by { if i < p.len() { assert(t[i] == p[i]); } }
+        assert forall|i: int| 0 <= i < t.len() implies (#[trigger] t[i] as u32) < 128 by { if i < p.len() { assert(t[i] == p[i]); } }
+    }
+    assert forall|c: char| !is_digit(c) implies !t.contains(c) by {
+        if t.contains(c) { let i = choose|i: int| 0 <= i < t.len() && t[i] == c; assert(is_digit(t[i])); }
+    }
+}
+/// decimal text of an integer as `{}` prints it: '-' and the digits of the magnitude for negatives
+pub open spec fn int_text(i: int) -> Seq<char> { if i < 0 { seq!['-'] + dec_text((-i) as nat) } else { dec_text(i as nat) } }
+pub proof fn lemma_int_text_i64(i: i64)
+    ensures i64_text_value(int_text(i as int)) == Some(i as int), !int_text(i as int).contains('\n'), !int_text(i as int).contains('\r')
+{
+    let t = int_text(i as int);
+    if i < 0 {
+        let d = dec_text((-(i as int)) as nat);
+        lemma_dec_text((-(i as int)) as nat);
+        assert(t[0] == '-');
+        assert(t.skip(1) =~= d);
+        assert forall|c: char| c != '-' && !d.contains(c) implies !t.contains(c) by {
+            if t.contains(c) { let k = choose|k: int| 0 <= k < t.len() && t[k] == c; if k > 0 { assert(d[k - 1] == c); assert(d.contains(c)); } }
+        }
+    } else {
+        lemma_dec_text(i as nat);
+        assert(t[0] != '-' && t[0] != '+') by { assert(is_digit(t[0])); }
+    }
+}
+
 // shim D6.parse_i64_index
 #[verifier::external_body]
 fn shim_parse_i64_full(s: &str) -> (r: core::result::Result<i64, std::num::ParseIntError>)
